@@ -7,9 +7,12 @@
 //! sossim run-one <family> <PROP> <seed> <tier> <dir>   (child)
 //! sossim run-plan <plan.json> <dir>                    (child)
 
+mod acct;
 mod common;
+mod device;
 mod interpose;
 mod logw;
+mod oracles;
 mod registry;
 mod rng;
 mod runner;
@@ -41,6 +44,7 @@ fn execute(plan: Plan, dir: &Path) -> RunOutcome {
     let res = rt.block_on(async move {
         match family.as_str() {
             "logw" => logw::execute(plan, &dir).await,
+            "acct" => acct::execute(plan, &dir).await,
             other => panic!("unknown family {other}"),
         }
     });
@@ -50,6 +54,7 @@ fn execute(plan: Plan, dir: &Path) -> RunOutcome {
 fn generate(family: &str, property: &str, seed: u64, tier: Tier) -> Plan {
     match family {
         "logw" => logw::generate(property, seed, tier),
+        "acct" => acct::generate(property, seed, tier),
         other => panic!("unknown family {other}"),
     }
 }
